@@ -44,7 +44,7 @@ class JsonRPC:
         :returns: werkzeug response
         """
 
-        if request.content_type not in pjrpc.common.REQUEST_CONTENT_TYPES:
+        if request.mimetype not in pjrpc.common.REQUEST_CONTENT_TYPES:
             raise exceptions.UnsupportedMediaType()
 
         try:
